@@ -771,6 +771,16 @@ impl<'a> Engine<'a> {
                 if self.check_conservation {
                     self.check_batch_conservation(n, &before, &after, txs, &child, a, &ctx);
                 }
+                // C02 "balanced": a denomination that the inputs carry and no output names disappears - accepted by the code (known
+                // finding AK), applied by the model as well so that the search goes on behind it
+                for (ti, d) in n.model.burns_by_omission(txs) {
+                    run.violation(
+                        "C02",
+                        format!("accepts-unbalanced/input-denomination-without-output/{}", txs[ti].kind),
+                        format!("after [{}] ; [{}]: transaction {} of the batch spends {:?} and names no output of it - the amount disappears, the transaction is accepted", n.path_str(), label, ti, d),
+                        n.replay_json(Some(a)),
+                    );
+                }
                 // pools and the other scalars must not move in a batch
                 if after.header.pools_hash != before.header.pools_hash || after.header.fee_multiplier != before.header.fee_multiplier || after.header.height != before.header.height {
                     run.violation("C02", "batch-moves-pools-or-scalars".into(), format!("after [{}] ; [{}]", n.path_str(), label), n.replay_json(Some(a)));
